@@ -387,10 +387,18 @@ func linShiftRight(a *Lin, holder *Int, n int) *Lin {
 			return nil
 		}
 	}
-	a = a.expandFor(n)
-	if a == nil {
-		return nil
+	// first with whole symbols kept whole (their narrowed ranges bound the remainder), then with the
+	// symbols that are not multiples of 2^n split into bits (the bits above n divide exactly)
+	if q := linShiftRight1(a, n); q != nil {
+		return q
 	}
+	if e := a.expandFor(n); e != nil && e != a {
+		return linShiftRight1(e, n)
+	}
+	return nil
+}
+
+func linShiftRight1(a *Lin, n int) *Lin {
 	p := int64(1) << uint(n)
 	q := &Lin{}
 	rem := &Lin{}
@@ -498,7 +506,7 @@ func linJoin(t, f *Int, gate *Bit) *Lin {
 		return nil
 	}
 	if len(d.T) == 0 && d.K == 0 {
-		return a
+		return linHull(a, b)
 	}
 	if gate == nil || gate.K != BSrc || len(d.T) != 0 {
 		return nil
@@ -509,9 +517,32 @@ func linJoin(t, f *Int, gate *Bit) *Lin {
 		g.K = d.K
 		g.T[0].C = -d.K
 	}
-	r := linCombine(b, g, 1)
+	r := linCombine(linHull(b, a), g, 1)
 	if r != nil {
 		r.Mod = a.Mod
+	}
+	return r
+}
+
+// linHull returns a with every term's range widened to cover the range the same term has in b: the
+// ranges are facts about the path a value was computed on, and a join holds on either path.
+func linHull(a, b *Lin) *Lin {
+	r := &Lin{K: a.K, Mod: a.Mod, T: append([]LinTerm(nil), a.T...)}
+	for i := range r.T {
+		found := false
+		for _, t := range b.T {
+			if t.S == r.T[i].S && t.J == r.T[i].J {
+				found = true
+				r.T[i].Lo, r.T[i].Hi = min64(r.T[i].Lo, t.Lo), max64(r.T[i].Hi, t.Hi)
+			}
+		}
+		if !found {
+			if r.T[i].J >= 0 {
+				r.T[i].Lo, r.T[i].Hi = 0, 1
+			} else {
+				r.T[i].Lo, r.T[i].Hi = rangeOf(int(r.T[i].W), r.T[i].Signed)
+			}
+		}
 	}
 	return r
 }
